@@ -168,6 +168,8 @@ def own(spec, phys, v):
         # pandera casts through Float64 first: stay well inside the exactly representable range
         if scale <= s and int_digits + s <= p and int_digits <= 9:
             return (EXACT, d)
+        if int_digits + s > p and int_digits <= 15:
+            return (FAIL, None)  # the integer part does not fit into Decimal(p, s)
         return (GREY, None)
     if k == "categorical":
         if phys == "String":
